@@ -189,6 +189,52 @@ pub fn threads_from_env() -> usize {
 }
 
 /// Run `cases` generated cases of `check` over `threads` proptest runners.
+/// Process-wide stall watchdog: every worker publishes the case it is evaluating; if one case takes longer
+/// than VERIF_WATCHDOG_SECS (default 120) the input is saved and the process exits 2 (inconclusive).
+pub struct Stall {
+    slots: Vec<Mutex<Option<(Instant, String)>>>,
+}
+
+static STALL: std::sync::OnceLock<Stall> = std::sync::OnceLock::new();
+
+pub fn stall() -> &'static Stall {
+    STALL.get_or_init(|| {
+        let s = Stall { slots: (0..64).map(|_| Mutex::new(None)).collect() };
+        std::thread::spawn(|| {
+            let limit = std::env::var("VERIF_WATCHDOG_SECS").ok().and_then(|s| s.parse().ok()).unwrap_or(120u64);
+            loop {
+                std::thread::sleep(std::time::Duration::from_secs(2));
+                if let Some(st) = STALL.get() {
+                    for slot in &st.slots {
+                        let guard = slot.lock().unwrap();
+                        if let Some((t0, case)) = guard.as_ref() {
+                            if t0.elapsed().as_secs() > limit {
+                                let dir = std::env::var("VERIF_FOUND_DIR").unwrap_or_else(|_| format!("{}/replays/found", verif_root()));
+                                let _ = std::fs::create_dir_all(&dir);
+                                let path = format!("{dir}/watchdog-{:016x}.json", hash_str(case));
+                                let _ = std::fs::write(&path, case);
+                                println!("WATCHDOG: one case has been running for more than {limit} s; input saved to {path}");
+                                println!("INCONCLUSIVE: watchdog");
+                                std::process::exit(2);
+                            }
+                        }
+                    }
+                }
+            }
+        });
+        s
+    })
+}
+
+impl Stall {
+    pub fn begin(&self, thread: usize, case: &Value) {
+        *self.slots[thread % 64].lock().unwrap() = Some((Instant::now(), case.to_string()));
+    }
+    pub fn end(&self, thread: usize) {
+        *self.slots[thread % 64].lock().unwrap() = None;
+    }
+}
+
 pub fn run_generated(check: &dyn Check, cases: u64, seed: u64, threads: usize) -> RunResult {
     let stop = Arc::new(AtomicBool::new(false));
     let failures: Arc<Mutex<Vec<Failure>>> = Arc::new(Mutex::new(vec![]));
@@ -227,7 +273,9 @@ pub fn run_generated(check: &dyn Check, cases: u64, seed: u64, threads: usize) -
                             return Ok(());
                         }
                         let case = check.decode(&tape, th);
+                        stall().begin(th, &case);
                         let out = check.eval(&case, &mut ctx_cell.borrow_mut());
+                        stall().end(th);
                         if counting.get() {
                             let mut st = stats.borrow_mut();
                             if let Verdict::Fail(sig, _) = &out.verdict {
@@ -329,7 +377,9 @@ pub fn run_explicit(check: &dyn Check, cases: Vec<Value>, threads: usize) -> Run
                     loop {
                         let item = queue.lock().unwrap().pop();
                         let Some((_i, case)) = item else { break };
+                        stall().begin(th + 32, &case);
                         let out = check.eval(&case, &mut ctx);
+                        stall().end(th + 32);
                         if let Verdict::Fail(sig, detail) = &out.verdict {
                             if known.iter().any(|k| k == sig) {
                                 stats.evaluations += 1;
@@ -458,6 +508,10 @@ impl Report {
         );
         if !self.violations.is_empty() {
             return 1;
+        }
+        if self.stats.inconclusive.keys().any(|k| k.starts_with("watchdog")) {
+            println!("INCONCLUSIVE: a call under test did not return (watchdog): {:?}", self.stats.inconclusive);
+            return 2;
         }
         if self.stats.evaluations == 0 || inconclusive * 10 > self.stats.evaluations.max(1) {
             println!("INCONCLUSIVE: {:?}", self.stats.inconclusive);
